@@ -68,6 +68,7 @@ from dataclasses import dataclass, field
 from typing import Any
 
 from solvor.types import Result, Status
+from solvor.utils.helpers import recursion_limit
 
 __all__ = ["solve_exact_cover"]
 
@@ -298,7 +299,8 @@ def solve_exact_cover(
         _uncover(min_col)
         return False
 
-    search()
+    with recursion_limit(len(matrix) + 2):  # one frame per selected row
+        search()
 
     if iterations > max_iter:
         if solutions:
